@@ -52,6 +52,9 @@ type CounterEx struct {
 	Tag       string            `json:"tag,omitempty"`
 	Func      string            `json:"func,omitempty"`
 	Pkg       string            `json:"pkg,omitempty"`
+	// the path drew a random order (math/rand.Perm) that a native run cannot be forced to repeat: the native
+	// replay is then attempted several times, and any run that shows the violation confirms it
+	RandomOrder bool `json:"random_order,omitempty"`
 }
 
 type AssertStat struct {
@@ -106,7 +109,7 @@ type workItem struct {
 
 // Path is one execution of a harness following a decision prefix.
 type Path struct {
-	jsonHexMode bool // hexjson.Unmarshal in progress (byte slices are hex strings)
+	jsonHexMode  bool // hexjson.Unmarshal in progress (byte slices are hex strings)
 	eng          *Engine
 	h            *Harness
 	res          *HarnessResult
@@ -391,7 +394,7 @@ func (p *Path) Assert(id string, c *Term) {
 		if c.IsFalse() {
 			p.sol.Check(nil, false)
 		}
-		cex := &CounterEx{Harness: p.h.Name, Assert: id, Inputs: p.model(), Params: p.h.Params,
+		cex := &CounterEx{Harness: p.h.Name, Assert: id, Inputs: p.model(), Params: p.h.Params, RandomOrder: p.natives["randperm"] != nil,
 			Decisions: append([]Decision(nil), p.taken...), Trace: append([]string(nil), p.trace...), Tag: p.tag}
 		p.resMu.Lock()
 		if len(p.res.CEX) < 200 {
